@@ -25,14 +25,17 @@ class ReorderedLowLevelWCS(BaseWCSWrapper):
     """
 
     def __init__(self, wcs, pixel_order, world_order):
+        # Kept as lists: a tuple would index the correlation matrix as a multi-dimensional index,
+        # and a one-shot iterator would be used up by the check below.
+        pixel_order = list(pixel_order)
+        world_order = list(world_order)
         if sorted(pixel_order) != list(range(wcs.pixel_n_dim)):
             raise ValueError(f'pixel_order should be a permutation of {list(range(wcs.pixel_n_dim))}')
         if sorted(world_order) != list(range(wcs.world_n_dim)):
             raise ValueError(f'world_order should be a permutation of {list(range(wcs.world_n_dim))}')
         self._wcs = wcs
-        # Kept as lists: a tuple would index the correlation matrix as a multi-dimensional index.
-        self._pixel_order = list(pixel_order)
-        self._world_order = list(world_order)
+        self._pixel_order = pixel_order
+        self._world_order = world_order
         self._pixel_order_inv = np.argsort(pixel_order)
         self._world_order_inv = np.argsort(world_order)
 
